@@ -875,6 +875,39 @@ pub fn run(run: &mut Run) {
             });
         }
     });
+    // the same kind of scenarios, four at a time: CPU contention between independent BER runs perturbs the
+    // schedules further (the monitors of a scenario only use its own logs and counters)
+    if !miri {
+        let nc = run.tier.n(160, 4000);
+        run.sub_threads("normal-runs-contended", nc, 4, move |l, idx, rng| {
+            if HUNG.load(Ordering::SeqCst) {
+                return;
+            }
+            let h = small_h(rng);
+            let k = h.cols - h.rows;
+            let mut script = base_script(rng, k);
+            let bch = if rng.chance(0.4) { rng.range(1, 3) as u64 } else { 0 };
+            if bch > 0 {
+                script.max_e = (bch as usize + 2).min(k);
+            }
+            let p = Params {
+                workers: 2 + rng.below(15),
+                affinity_mode: 0,
+                target: rng.range(1, 40) as u64,
+                bch,
+                ebn0s: vec![60.0],
+                script,
+                puncture: None,
+                interleave: None,
+                psk8: false,
+                kind: "normal (contended)",
+                h,
+            };
+            let _ = idx;
+            let o = run_scenario(&p);
+            judge(l, &p, &o, "ok");
+        });
+    }
     let nf = if miri { 2 } else { run.tier.n(96, 1600) };
     run.sub_seq("fault-injection", nf, move |l, idx, rng| {
         if HUNG.load(Ordering::SeqCst) {
